@@ -680,7 +680,7 @@ int main(int argc, char **argv) {
         printf(" verify=%d", vr);
 #if DO_CLONE
         if (vr == 0) {
-            int pass; size_t csz[2] = {0, 0}; int cv = -1, okc[2] = {0, 0};
+            int pass; size_t csz[2] = {0, 0}; int cv = -1, okc[2] = {0, 0}; unsigned cmapn = 0;
             for (pass = 0; pass < 2; ++pass) {      /* pass 0: with a reference map (sharing kept); pass 1: without */
                 flatcc_builder_t b2, *B2 = &b2; flatcc_refmap_t rm; void *cb = 0; size_t cs = 0; int ok = 0;
                 flatcc_builder_init(B2); flatcc_refmap_init(&rm);
@@ -689,10 +689,11 @@ int main(int argc, char **argv) {
 @CSW@
                 }
                 okc[pass] = ok && cb; csz[pass] = cs;
+                if (pass == 0) cmapn = (unsigned)rm.count;
                 if (cb) flatcc_builder_aligned_free(cb);
                 flatcc_builder_clear(B2); flatcc_refmap_clear(&rm);
             }
-            printf(" cverify=%d cok=%d,%d csize=%u,%u", cv, okc[0], okc[1], (unsigned)csz[0], (unsigned)csz[1]);
+            printf(" cverify=%d cok=%d,%d csize=%u,%u cmap=%u", cv, okc[0], okc[1], (unsigned)csz[0], (unsigned)csz[1], cmapn);
         }
 #endif
         printf("\\n");
